@@ -410,6 +410,17 @@ func (a *acct) verEff() (digits int, algo int, skew uint64, period uint64) {
 	return a.Digits, a.Algo, a.Skew, periodEff(a.Period)
 }
 
+// refSecret: the spelling the reference computations use. The verifier's copy
+// is by construction the same secret as the token's unless it was damaged on
+// purpose; the reference then uses the token's spelling, so that a verifier-side
+// spelling the library can no longer read shows as a rejected valid code.
+func (a *acct) refSecret() string {
+	if a.BadStore == 0 {
+		return a.tokSecret
+	}
+	return a.stored
+}
+
 func (a *acct) tokParam() *otp.Param {
 	if a.NilParam && a.TokDigits == 0 && a.TokAlgo == 0 {
 		return nil
@@ -764,7 +775,7 @@ func (s *sim) hotpDeliver(a *acct, m message) {
 		if c < skew {
 			verifh.Count("probe.hotp.window-clipped-at-0", 1)
 		}
-		set, refFail := windowSet(a.stored, lo, c+skew, digits, algo)
+		set, refFail := windowSet(a.refSecret(), lo, c+skew, digits, algo)
 		if refFail {
 			verifh.Count("ref.generation-failed(window empty or partial)", 1)
 		}
@@ -784,7 +795,7 @@ func (s *sim) hotpDeliver(a *acct, m message) {
 			lo = c - skew
 		}
 		if c+skew >= c {
-			set, _ := windowSet(a.stored, lo, c+skew, digits, algo)
+			set, _ := windowSet(a.refSecret(), lo, c+skew, digits, algo)
 			if mc, in := set[m.code]; in && mc != ^uint64(0) {
 				a.verCounter = mc + 1
 				verifh.Count("verifier.accept+resync", 1)
@@ -1117,7 +1128,7 @@ func (s *sim) totpDeliver(a *acct, m message) {
 		case dist == int64(skew)+1 || dist == -int64(skew)-1:
 			verifh.Count("probe.distance==s+1", 1)
 		}
-		set, refFail := windowSet(a.stored, n-skew, n+skew, digits, algo)
+		set, refFail := windowSet(a.refSecret(), n-skew, n+skew, digits, algo)
 		if refFail {
 			verifh.Count("ref.generation-failed(window empty or partial)", 1)
 		}
@@ -1469,7 +1480,7 @@ func (s *sim) ocraJudge(a *acct, st otp.Suite, view *ocraView, submitted string,
 	s.events++
 	var want string
 	var gerr error
-	rg := guarded(func() { want, gerr = otp.GenerateOCRA(fresh(a.stored), st, view.input()) })
+	rg := guarded(func() { want, gerr = otp.GenerateOCRA(fresh(a.refSecret()), st, view.input()) })
 	cfg := safeConfig(st)
 	sameView := eqView(view, clientView, cfg)
 	s.logf("ocra deliver acct=%d code=%q -> %v %v (gen %q %v) sameView=%v", a.idx, submitted, ok, err, want, gerr, sameView)
@@ -1729,6 +1740,10 @@ func run(p *Plan, logOn bool) (*verifh.Violation, *sim) {
 		}
 		a.tokSecret = spell(a.Secret, a.Spelling)
 		a.stored = a.tokSecret
+		if a.VerSpell > 0 {
+			a.stored = spell(a.Secret, a.VerSpell-1)
+			verifh.Count("fault.verifier-holds-another-spelling-of-the-secret", 1)
+		}
 		if a.BadStore != 0 {
 			a.stored = damage(a.stored, a.BadStore)
 			verifh.Count("fault.verifier-secret-undecodable", 1)
